@@ -23,10 +23,47 @@ ASSUMPTIONS = ["command code and response-encryption flag of each response come 
 TIERS = {"quick": {"runs": 12000, "budget": 75}, "thorough": {"runs": 300000, "budget": 780}}
 
 
+def twin_case(rng, g):
+    """two exchanges of the same command whose responses are byte-identical, only the first command asks for response
+    encryption (an encrypted and a plain size-prefixed first parameter have the same wire layout): the pairing decides"""
+    L = layout()
+    ccs = [cc for cc in sorted(L.commands) if L.first_param_is_tpm2b(L.commands[cc]["rsp_params"])]
+    cc = rng.choice(ccs)
+    cmd1, _ = g.command(cc=cc, n_sessions=rng.randint(1, 2), enc=False, resp_enc=True)
+    cmd2, _ = g.command(cc=cc, n_sessions=rng.randint(1, 2), enc=False, resp_enc=False)
+    rsp = g.response(cc, enc=True, fail=False, n_sessions=1)
+    # the response sessions must not carry the encrypt attribute themselves (it would contradict the second pairing):
+    # clear it in place after serialising
+    rdata, ritems = gen.serialise(rsp)
+    b = bytearray(rdata)
+    for it in ritems:
+        if it[0] == "P" and it[1].endswith(".sessionAttributes"):
+            b[it[4]] &= 0x9F
+    rdata = bytes(b)
+    c1, c2 = gen.serialise(cmd1)[0], gen.serialise(cmd2)[0]
+    order = [(c1, True), (c2, None)]
+    if rng.random() < 0.5:
+        order.reverse()
+    msgs, data = [], b""
+    for cbytes, enc in order:
+        msgs.append({"kind": "command", "cc": None, "enc": None, "start": len(data), "end": len(data) + len(cbytes)})
+        data += cbytes
+        msgs.append({"kind": "response", "cc": cc, "enc": enc, "start": len(data), "end": len(data) + len(rdata)})
+        data += rdata
+    return data, msgs
+
+
 def make_case(i, rng, tier):
     L = layout()
     k = gen.Knobs(rng)
     g = gen.Gen(rng, k)
+    if rng.random() < 0.03:
+        data, msgs = twin_case(rng, g)
+        tasks = [common.spec("stream", model.STREAM, data, None, None, strict=True, source="counting")]
+        for j, m in enumerate(msgs):
+            tasks.append(common.spec("m%d" % j, "Command" if m["kind"] == "command" else "Response", data[m["start"]:m["end"]], m["cc"], m["enc"], strict=True))
+        return {"input": {"label": "twins:%s" % L.commands[msgs[1]["cc"]]["name"], "msgs": msgs, "later": None}, "tasks": tasks,
+                "schedule": {"policy": "sequential"}}
     nmax = 6 if tier == "quick" else 20
     n = rng.randint(1, nmax) if rng.random() < 0.8 else rng.randint(1, 3)
     ccs = sorted(L.commands)
@@ -43,6 +80,17 @@ def make_case(i, rng, tier):
     o = model.decode(model.STREAM, data)
     if not o.ok or o.items != items:
         raise HarnessError("stream self-check failed: %s %s" % (o.problem, common.show_diff(o.items, items)))
+    if rng.random() < 0.04:
+        # the capture starts with the device reporting its properties
+        ccmd, crsp = common.capability_exchange(rng)
+        pre = ccmd + crsp
+        data = pre + data
+        bounds = [0, len(ccmd), len(pre)] + [b + len(pre) for b in bounds[1:]]
+        metas = [dict(kind="command", cc=None, enc=None), dict(kind="response", cc=0x17A, enc=None)] + metas
+        trees = [None, None] + trees
+        o = model.decode(model.STREAM, data)
+        if not o.ok:
+            raise HarnessError("capability preamble is not well-formed: %s" % (o.problem,))
     tasks = [common.spec("stream", model.STREAM, data, None, None, strict=True, source="counting")]
     msgs = []
     for j, (a, b) in enumerate(zip(bounds, bounds[1:])):
